@@ -642,7 +642,7 @@ def findwalks(CIJ):
     -----
     Wq grows very quickly for larger N,K,q. Weights are discarded.
     '''
-    CIJ = binarize(CIJ, copy=True)
+    CIJ = binarize(CIJ, copy=True).astype(float)  # boolean powers are logical
     n = len(CIJ)
     Wq = np.zeros((n, n, n))
     CIJpwr = CIJ.copy()
